@@ -888,6 +888,21 @@ def run(ctx):
         ctx.add_finding("R05-STAT", f.file, f.qual, f.construct, f.why, f.line)
     ctx.functions |= tmp.functions
     ctx.shortfalls += tmp.shortfalls
+    # ... of the RAW history: the value recorded for a round is the reward that was received, unchanged (C04's once-rule for the
+    # three algorithms), and the round counter behind t+ / delta~ / the thresholds is the algorithm's own count of rounds, not the
+    # caller's time label (C15's taint rule)
+    from .. import credit as CR
+    tmp2 = Ctx(ctx.prop, ctx.tier, ctx.seed, ctx.model)
+    for algo in TREE_ALGOS:
+        cls = ctx.model.cls(algo)
+        tmp2.attempt("R04-ONCE", cls.file, "%s.receive_reward" % algo, "recording", c04.check_once, tmp2, cls, CR.credit_paths(ctx.model, algo))
+    for o in tmp2.obligations:
+        ctx.obligations.append(dict(o, rule="R05-STAT"))
+    for f in tmp2.findings:
+        ctx.add_finding("R05-STAT", f.file, f.qual, f.construct, "the index is built from the raw reward history: %s" % f.why, f.line)
+    ctx.functions |= tmp2.functions
+    from . import c15
+    c15.import_taint(ctx, list(TREE_ALGOS), "R05-TIME", "t+, delta~, thresholds and widths are functions of the number of rounds played")
     # the descent moves to a CHILD of the current cell: get_children() must return exactly the cells created by splitting that cell (C03's one-step lemma: no aliasing between a child list and a layer, parent/child links consistent)
     from . import _partition
     _partition.feed(ctx, (), rename={"R03-ALIAS": "R05-TREE", "R03-LINK": "R05-TREE"})
